@@ -1119,6 +1119,70 @@ Definition run_conc_mix (inp : list Z) : list Z :=
   | _ => bad_input
   end.
 
+(* ---- C10: the helper functions multi_send / multi_receive on a caller's list of ports, mixed with any other use ---- *)
+Require Import Mido.Model.ConcHelpers.
+Fixpoint in_nats_n (n : nat) (l : list Z) : option (list nat * list Z) :=
+  match n with
+  | O => Some ([], l)
+  | S k => match l with x :: r => match in_nats_n k r with Some (xs, r') => Some (Z.to_nat x :: xs, r') | None => None end | [] => None end
+  end.
+(* ops 0 1 2 as for run_conc_mix; [3; k; k ports; message] multi_send; [4; k; k ports in polling order] multi_receive(block=False); k >= 1 *)
+Fixpoint in_hops (n : nat) (l : list Z) : option (list hop * list Z) :=
+  match n with
+  | O => Some ([], l)
+  | S k =>
+      match l with
+      | 0 :: port :: r => match in_msg r with
+                          | Some (m, r1) => match in_hops k r1 with Some (os, r') => Some (HPlain (XSend (Z.to_nat port) m) :: os, r') | None => None end
+                          | None => None
+                          end
+      | 1 :: port :: b :: r => match in_hops k r with Some (os, r') => Some (HPlain (XRecv (Z.to_nat port) (negb (b =? 0))) :: os, r') | None => None end
+      | 2 :: port :: r => match in_hops k r with Some (os, r') => Some (HPlain (XIterP (Z.to_nat port) []) :: os, r') | None => None end
+      | 3 :: c :: r => if c <=? 0 then None else
+                       match in_nats_n (Z.to_nat c) r with
+                       | Some (ps, r1) => match in_msg r1 with
+                                          | Some (m, r2) => match in_hops k r2 with Some (os, r') => Some (HMSend ps m :: os, r') | None => None end
+                                          | None => None
+                                          end
+                       | None => None
+                       end
+      | 4 :: c :: r => if c <=? 0 then None else
+                       match in_nats_n (Z.to_nat c) r with
+                       | Some (ps, r1) => match in_hops k r1 with Some (os, r') => Some (HMRecv ps :: os, r') | None => None end
+                       | None => None
+                       end
+      | _ => None
+      end
+  end.
+Fixpoint in_hprogs (n : nat) (l : list Z) : option (list (list hop) * list Z) :=
+  match n with
+  | O => Some ([], l)
+  | S k => match l with
+           | c :: r => match in_hops (Z.to_nat c) r with
+                       | Some (os, r1) => match in_hprogs k r1 with Some (ps, r') => Some (os :: ps, r') | None => None end
+                       | None => None
+                       end
+           | [] => None
+           end
+  end.
+Definition out_hthread (p : list hop) (th : xthread) : list Z :=
+  let rs := collapse p (xresults th) in
+  (match xat th with XRaised e => [2; exn_code e] | XStart => (match xprog th with [] => [0; 0] | _ => [1; 0] end) | _ => [1; 0] end)
+  ++ zlen rs :: flat_map out_result rs.
+(* [nsubs; nthreads; per thread: nops ops...; schedule...] -> as run_conc_mix, with one result per call of a helper function *)
+Definition run_conc_helpers (inp : list Z) : list Z :=
+  match inp with
+  | ns :: nt :: r =>
+      match in_hprogs (Z.to_nat nt) r with
+      | Some (hprogs, sched) =>
+          let '(s, ts) := xrun (map Z.to_nat sched) (hinit (Z.to_nat ns) (fun t => nth t hprogs [])) in
+          flat_map (fun t => out_hthread (nth t hprogs []) (ts t) ++ [-9]) (seq 0 (length hprogs))
+          ++ flat_map (fun i => out_msgs (xq s i)) (seq 0 (S (Z.to_nat ns))) ++ [Z.of_nat (xsleeps s)]
+      | None => bad_input
+      end
+  | _ => bad_input
+  end.
+
 (* ---- C11: close() from several threads ---- *)
 Require Import Mido.Model.ConcClose.
 (* [locking; nthreads; schedule...] -> [releases; closed; per thread: 1 when its close() has returned] *)
